@@ -43,9 +43,20 @@ def do_request(req, base_dir=None, fixed_base=None):
             kw['max_recursion_depth'] = req['depth']
         try:
             with contextlib.redirect_stdout(io.StringIO()):
-                flipjump.assemble(paths, out, memory_width=req['w'], fjm_version=FJMVersion(req['version']), print_time=False,
-                                  warning_as_errors=req['werror'], use_stl=req['use_stl'],
-                                  debugging_file_path=dbg if req.get('debug', True) else None, **kw)
+                if req.get('short_prefix'):
+                    # the lower-level entry point: the caller chooses the files' short names (they appear in label names)
+                    from flipjump.assembler import assembler
+                    from flipjump.fjm.fjm_writer import Writer
+                    from flipjump.utils.functions import get_file_tuples
+                    tuples = get_file_tuples([str(p.absolute()) for p in paths], no_stl=not req['use_stl'])
+                    tuples = [(req['short_prefix'] + name[1:] if name.startswith('s') else name, path) for name, path in tuples]
+                    assembler.assemble(tuples, req['w'], Writer(out, req['w'], FJMVersion(req['version'])), print_time=False,
+                                       warning_as_errors=req['werror'],
+                                       debugging_file_path=dbg if req.get('debug', True) else None, **kw)
+                else:
+                    flipjump.assemble(paths, out, memory_width=req['w'], fjm_version=FJMVersion(req['version']), print_time=False,
+                                      warning_as_errors=req['werror'], use_stl=req['use_stl'],
+                                      debugging_file_path=dbg if req.get('debug', True) else None, **kw)
         except FlipJumpException as e:
             res['status'] = 'fj-exception'
             res['exc'] = type(e).__name__
